@@ -868,7 +868,10 @@ func record(a *hx.Args, res *hx.Result) {
 	}
 
 	// ---- SumFourSquares, every n below the bound, in blocks of 256
-	for n0 := int64(0); n0 < b.sq4; n0 += 256 {
+	nblocks := int((b.sq4 + 255) / 256)
+	blocks := make([]hx.M, nblocks)
+	hx.Parallel(nblocks, func(bi_ int) {
+		n0 := int64(bi_) * 256
 		var vs [][]int64
 		kept, panicked := true, false
 		for n := n0; n < n0+256 && n < b.sq4; n++ {
@@ -880,8 +883,11 @@ func record(a *hx.Args, res *hx.Result) {
 			kept = kept && k.ok()
 			res.Eval("")
 		}
-		rc.emit(hx.M{"f": "sq4", "n0": n0, "v": vs, "kept": kept, "panic": panicked})
-		res.Eval(fmt.Sprintf("rec/sq4/%d", n0))
+		blocks[bi_] = hx.M{"f": "sq4", "n0": n0, "v": vs, "kept": kept, "panic": panicked}
+	})
+	for i, m := range blocks {
+		rc.emit(m)
+		res.Eval(fmt.Sprintf("rec/sq4/%d", i*256))
 	}
 
 	// ---- FastMod: every modulus below 2^b, operands negative / small / huge, result separate, aliased, dirty
@@ -1083,7 +1089,6 @@ func fmOperands(p, dense int64, rng *mrand.Rand) []int64 {
 // ====================================================================== large operands (math/big, not TLC)
 
 func large(a *hx.Args, res *hx.Result) {
-	rng := hx.Rng(a.Seed, "nt-large")
 	rounds := 150
 	if a.Tier == "thorough" {
 		rounds = 1500
@@ -1092,18 +1097,6 @@ func large(a *hx.Args, res *hx.Result) {
 		rounds = a.N
 	}
 	sizes := []int{64, 65, 127, 128, 256, 521, 1024, 2048, 4096}
-	rnd := func(bits int) *gobig.Int {
-		return new(gobig.Int).Rand(rng, new(gobig.Int).Lsh(gobig.NewInt(1), uint(bits)))
-	}
-	rndPrime := func(bits int, cond func(*gobig.Int) bool) *gobig.Int {
-		for {
-			p := rnd(bits)
-			p.SetBit(p, bits-1, 1).SetBit(p, 0, 1)
-			if p.ProbablyPrime(20) && (cond == nil || cond(p)) {
-				return p
-			}
-		}
-	}
 	one := gobig.NewInt(1)
 	bad := func(fn, what string, detail hx.M) {
 		res.Violation("large-operand:"+fn, fn+": "+what, detail)
@@ -1118,7 +1111,20 @@ func large(a *hx.Args, res *hx.Result) {
 	C := big.Convert
 	cp := func(x *gobig.Int) *big.Int { return C(new(gobig.Int).Set(x)) }
 
-	for round := 0; round < rounds; round++ {
+	hx.Parallel(rounds, func(round int) {
+		rng := hx.Rng(a.Seed, fmt.Sprintf("nt-large/%d", round)) // every round has its own stream: the schedule does not matter
+		rnd := func(bits int) *gobig.Int {
+			return new(gobig.Int).Rand(rng, new(gobig.Int).Lsh(gobig.NewInt(1), uint(bits)))
+		}
+		rndPrime := func(bits int, cond func(*gobig.Int) bool) *gobig.Int {
+			for {
+				p := rnd(bits)
+				p.SetBit(p, bits-1, 1).SetBit(p, 0, 1)
+				if p.ProbablyPrime(20) && (cond == nil || cond(p)) {
+					return p
+				}
+			}
+		}
 		bits := sizes[round%len(sizes)]
 		if round >= len(sizes) && round%3 == 0 {
 			bits = 33 + rng.Intn(4064)
@@ -1458,7 +1464,7 @@ func large(a *hx.Args, res *hx.Result) {
 				}
 			}
 		}
-	}
+	})
 	res.Notes["large_operand_relations"] = "evaluated with math/big in the harness, not by TLC (weaker binding); operand sizes 64..4096 bits, seed-determined"
 	res.Sample(hx.M{"direction": "large operands", "rounds": rounds})
 }
